@@ -148,6 +148,7 @@ class Formatter:
         idx = TF.BodyIndex(self.sub_fn)
         self.idx = idx
         self.positions = {}   # kind -> {field: (outer, side)}
+        self.arm_of = {}
         self.events = {}      # kind -> [event]
         for arm in ms[0]["arms"]:
             for alt in F.pat_alternatives(arm["pat"]):
@@ -161,6 +162,7 @@ class Formatter:
                         continue
                     evs = self._arm_events(arm["body"], kd, binds, alt)
                     self.events[kd] = evs
+                    self.arm_of[kd] = (arm["body"], binds, alt)
                     pos = {}
                     for ev in evs:
                         if ev[0] == "rec":
@@ -178,13 +180,35 @@ class Formatter:
                 return None
         return fields.pop() if len(fields) == 1 else None
 
-    def _arm_events(self, body, kd, binds, alt):
+    def events_with_child(self, kd, field, child_kd):
+        """Emission events of node kind `kd` when the child in `field` is a node of kind `child_kd` (conditions that
+        inspect the child are then decidable). Text emitted inside a branch that is still undecided is dropped, so a
+        separator only counts when it is certainly emitted."""
+        body, binds, alt = self.arm_of[kd]
+        v = kind_value(kd, self.facts)
+        v.fields[str(field)] = I.Enum("Located", None, {"node": kind_value(child_kd, self.facts), "location": I.Opaque("loc")})
+        evs = self._arm_events(body, kd, binds, alt, value=v)
+        out, depth = [], 0
+        for e in evs:
+            if e[0] == "branch-begin":
+                depth += 1
+            elif e[0] == "branch-end":
+                depth -= 1
+            elif e[0] == "branch-else":
+                pass
+            elif depth > 0 and e[0] == "text":
+                continue
+            else:
+                out.append(e)
+        return out
+
+    def _arm_events(self, body, kd, binds, alt, value=None):
         """Ordered emission events of one arm for one node kind. If-conditions over the
         operator are resolved with the finite-map reader; loops contribute their body once."""
         ip = self.ip
         env = {}
         # bind pattern variables to the kind's value so that conditions on `op` can be read
-        ip.match_pat(alt, kind_value(kd, self.facts), env)
+        ip.match_pat(alt, value if value is not None else kind_value(kd, self.facts), env)
         out = []
         loop_vars = {}
 
@@ -858,26 +882,48 @@ def rule_adj(chk, fm, px, lx):
         if fm.prec.get(parent) is None:
             continue
         evs = [e for e in fm.events.get(parent, []) if not e[0].startswith("branch")]
+        # operator spelling followed by a child that itself starts with an operator spelling (judged per child kind:
+        # the printer may insert a separator that depends on the child)
+        rec_fields = [e[1] for e in evs if e[0] == "rec" and e[1] is not None and not str(e[1]).endswith("[]")]
+        if any(e[0] in ("unop", "binop") for e in evs):
+            for child, ctext in sorted(starts.items()):
+                for fld in rec_fields:
+                    try:
+                        cevs = fm.events_with_child(parent, fld, child)
+                    except I.Unknown:
+                        cevs = evs
+                    for i in range(len(cevs) - 1):
+                        a = cevs[i]
+                        if a[0] not in ("unop", "binop"):
+                            continue
+                        j = i + 1
+                        gap = ""
+                        while j < len(cevs) and cevs[j][0] == "text":
+                            gap += cevs[j][1] if cevs[j][1] is not None else "\0"
+                            j += 1
+                        if j >= len(cevs) or cevs[j][0] != "rec" or cevs[j][1] != fld:
+                            continue
+                        b = cevs[j]
+                        if a[0] == "binop" and gap.strip() == "" and gap != "":
+                            continue      # binary operators are separated by a constant space (judged below)
+                        atext = fm.un_text.get(parent[1]) if a[0] == "unop" else fm.bin_text.get(parent[1])
+                        outer = fm.prec[parent] if b[2] == "self" else b[2]
+                        try:
+                            if fm.needs_paren(child, outer, b[3]):
+                                continue
+                        except I.Unknown:
+                            continue
+                        n += 1
+                        joined = lx.lex(atext + gap + ctext) if "\0" not in gap else None
+                        sep = (lx.lex(atext) or []) + (lx.lex(ctext) or [])
+                        ok = joined is not None and [t for t, _ in joined] == [t for t, _ in sep]
+                        chk.ob("C09.adj/%s+%s" % (kname(parent), kname(child)), ok,
+                               "%r+%r lexes as two tokens" % (atext + gap, ctext) if ok else
+                               "printer emits %r directly followed by %r (no separator, child not parenthesised): the text %r lexes as %s, not %s"
+                               % (atext, ctext, atext + gap + ctext, [t for t, _ in (joined or [])], [t for t, _ in sep]),
+                               where(sub), sample={"first": atext, "second": ctext, "lexed": [t for t, _ in (joined or [])]})
         for i in range(len(evs) - 1):
             a, b = evs[i], evs[i + 1]
-            if a[0] in ("unop", "binop") and b[0] == "rec":
-                atext = fm.un_text.get(parent[1]) if a[0] == "unop" else fm.bin_text.get(parent[1])
-                outer = fm.prec[parent] if b[2] == "self" else b[2]
-                for child, ctext in sorted(starts.items()):
-                    try:
-                        if fm.needs_paren(child, outer, b[3]):
-                            continue
-                    except I.Unknown:
-                        continue
-                    n += 1
-                    joined = lx.lex(atext + ctext)
-                    sep = (lx.lex(atext) or []) + (lx.lex(ctext) or [])
-                    ok = joined is not None and [t for t, _ in joined] == [t for t, _ in sep]
-                    chk.ob("C09.adj/%s+%s" % (kname(parent), kname(child)), ok,
-                           "%r+%r lexes as two tokens" % (atext, ctext) if ok else
-                           "printer emits %r directly followed by %r (no separator, child not parenthesised): the text %r lexes as %s, not %s"
-                           % (atext, ctext, atext + ctext, [t for t, _ in (joined or [])], [t for t, _ in sep]),
-                           where(sub), sample={"first": atext, "second": ctext, "lexed": [t for t, _ in (joined or [])]})
             if a[0] == "rec" and b[0] in ("unop",):
                 # postfix operator directly after operand: operand may end with a postfix operator of the same level
                 atext = fm.un_text.get(parent[1])
